@@ -41,7 +41,7 @@ type (
 		Forall bool
 		Vars   []SVar
 		Body   SExpr
-		Trig   []SExpr
+		Trigs  [][]SExpr
 	}
 	SDeref struct{ X SExpr }
 	SOld   struct{ X SExpr }
@@ -232,16 +232,18 @@ func (p *sparser) parseQuant() SExpr {
 	}
 	p.expect(token.COLON)
 	p.expect(token.COLON)
-	// optional triggers: { e1, e2 }
-	if p.peek().tok == token.LBRACE {
+	// optional triggers: { e1, e2 } { e3 } ... (each group is one multi-pattern)
+	for p.peek().tok == token.LBRACE {
 		p.next()
+		var grp []SExpr
 		for {
-			sq.Trig = append(sq.Trig, p.parseOr())
+			grp = append(grp, p.parseOr())
 			if !p.accept(token.COMMA) {
 				break
 			}
 		}
 		p.expect(token.RBRACE)
+		sq.Trigs = append(sq.Trigs, grp)
 	}
 	sq.Body = p.parseTop()
 	return sq
@@ -483,6 +485,7 @@ func unquote(s string) (string, error) {
 type LoopSpec struct {
 	Ordinal    int
 	Invariants []SpecClause
+	Steps      []SpecClause
 }
 
 type SpecClause struct {
@@ -516,6 +519,7 @@ type Contract struct {
 	Props      []string // property ids this contract serves
 	Lines      []string
 	NoSafe     bool
+	Uses       []string // names of opt-in axioms this function's verification needs
 	Track      []SpecClause
 }
 
@@ -536,12 +540,13 @@ type SpecFun struct {
 }
 
 type Axiom struct {
-	Name  string
-	Pkg   string
-	Expr  SExpr
-	Text  string
-	Kind  string // "axiom" | "lemma"
-	Props []string
+	Name   string
+	Pkg    string
+	Expr   SExpr
+	Text   string
+	Kind   string // "axiom" | "lemma"
+	Props  []string
+	Global bool // asserted in every verification; otherwise only where a contract says `uses <name>`
 }
 
 type GlobalInv struct {
@@ -557,10 +562,11 @@ type FinalDecl struct {
 }
 
 type TypeInv struct {
-	Type string // pkg.Name
-	Pkg  string
-	Expr SExpr
-	Text string
+	Assumed bool   // only assumed of incoming objects, never checked at allocation (listed as an assumption)
+	Type    string // pkg.Name
+	Pkg     string
+	Expr    SExpr
+	Text    string
 }
 
 type ParamInv struct {
@@ -571,7 +577,8 @@ type ParamInv struct {
 }
 
 type Specs struct {
-	ParamInvs []*ParamInv
+	Traced          map[string]bool // function keys whose direct calls are recorded in the ghost call log
+	ParamInvs       []*ParamInv
 	TypeInvs        []*TypeInv
 	ValueResultPkgs []string          // packages whose functions with the single result object.PanObject return a value (isVal)
 	FrameEC         []string          // designators of the memory an evaluating function may write on pre-existing objects
@@ -635,7 +642,7 @@ func (sp *Specs) parseFile(pkg string, lines []string) {
 		if i := strings.IndexAny(t, " \t"); i >= 0 {
 			word, rest = t[:i], strings.TrimSpace(t[i+1:])
 		}
-		if strings.HasSuffix(word, ":") && (word == "valueresults:") {
+		if strings.HasSuffix(word, ":") && (word == "valueresults:" || word == "traced:") {
 			word = strings.TrimSuffix(word, ":")
 		}
 		switch word {
@@ -671,6 +678,12 @@ func (sp *Specs) parseFile(pkg string, lines []string) {
 					for _, a := range strings.Split(rest, ",") {
 						cur.Assigns = append(cur.Assigns, strings.TrimSpace(a))
 					}
+				}
+			}
+		case "uses":
+			if cur != nil {
+				for _, u := range splitTop(rest) {
+					cur.Uses = append(cur.Uses, strings.TrimSpace(u))
 				}
 			}
 		case "track":
@@ -724,18 +737,11 @@ func (sp *Specs) parseFile(pkg string, lines []string) {
 				cur.Loops[n] = ls
 			}
 			switch kind {
-			case "paraminv":
-			// paraminv NAME: expr   (assumed of every parameter / captured variable with that name)
-			i := strings.Index(rest, ":")
-			if i < 0 {
-				sp.errf("%s: bad paraminv %q", pkg, rest)
-				continue
-			}
-			c := clause(strings.TrimSpace(rest[i+1:]))
-			sp.ParamInvs = append(sp.ParamInvs, &ParamInv{Name: strings.TrimSpace(rest[:i]), Pkg: pkg, Expr: c.Expr, Text: c.Text})
-			cur = nil
-		case "invariant":
+			case "invariant":
 				ls.Invariants = append(ls.Invariants, clause(body))
+			case "step":
+				// relation between the start of an iteration (prev(e)) and its end; checked at every back edge
+				ls.Steps = append(ls.Steps, clause(body))
 			case "decreases":
 				// recorded only
 			default:
@@ -793,14 +799,18 @@ func (sp *Specs) parseFile(pkg string, lines []string) {
 			}
 			sp.SpecFuns[sf.Name] = sf
 			cur = nil
-		case "axiom", "lemma":
+		case "axiom", "lemma", "axiom!":
+			global := word == "axiom!"
+			if global {
+				word = "axiom"
+			}
 			i := strings.Index(rest, ":")
 			if i < 0 {
 				sp.errf("%s: bad %s %q", pkg, word, rest)
 				continue
 			}
 			c := clause(strings.TrimSpace(rest[i+1:]))
-			ax := &Axiom{Name: strings.TrimSpace(rest[:i]), Pkg: pkg, Expr: c.Expr, Text: c.Text, Kind: word, Props: curProps}
+			ax := &Axiom{Name: strings.TrimSpace(rest[:i]), Pkg: pkg, Expr: c.Expr, Text: c.Text, Kind: word, Props: curProps, Global: global}
 			if word == "axiom" {
 				sp.Axioms = append(sp.Axioms, ax)
 			} else {
@@ -842,6 +852,14 @@ func (sp *Specs) parseFile(pkg string, lines []string) {
 				sp.errf("%s: unknown frame %q", pkg, rest[:i])
 			}
 			cur = nil
+		case "traced":
+			if sp.Traced == nil {
+				sp.Traced = map[string]bool{}
+			}
+			for _, k := range splitTop(strings.TrimPrefix(rest, ":")) {
+				sp.Traced[strings.TrimSpace(k)] = true
+			}
+			cur = nil
 		case "paraminv":
 			// paraminv NAME: expr   (assumed of every parameter / captured variable with that name)
 			i := strings.Index(rest, ":")
@@ -860,7 +878,10 @@ func (sp *Specs) parseFile(pkg string, lines []string) {
 				continue
 			}
 			c := clause(strings.TrimSpace(rest[i+1:]))
-			sp.TypeInvs = append(sp.TypeInvs, &TypeInv{Type: strings.TrimSpace(rest[:i]), Pkg: pkg, Expr: c.Expr, Text: c.Text})
+			tn := strings.TrimSpace(rest[:i])
+			assumed := strings.HasPrefix(tn, "assumed ")
+			tn = strings.TrimSpace(strings.TrimPrefix(tn, "assumed "))
+			sp.TypeInvs = append(sp.TypeInvs, &TypeInv{Type: tn, Pkg: pkg, Expr: c.Expr, Text: c.Text, Assumed: assumed})
 			cur = nil
 		case "valueresults":
 			// valueresults: evaluator, props
@@ -1020,4 +1041,49 @@ func splitTop(s string) []string {
 		out = append(out, t)
 	}
 	return out
+}
+
+var traceVocab = map[string]bool{"ncalls": true, "called": true, "arg1": true, "arg2": true, "arg3": true, "arg4": true, "arg5": true,
+	"result": true, "result2": true, "resultb": true, "resultok": true, "nvarargs": true, "sliceArg": true, "sliceRes": true}
+
+// mentionsTrace: the expression speaks about the ghost call log of the activation it belongs to. Such a
+// clause is an obligation of that function only; it must never be assumed at a call site (the caller has
+// its own log).
+func mentionsTrace(e SExpr, sp *Specs) bool {
+	switch x := e.(type) {
+	case *SIdent:
+		return traceVocab[x.Name]
+	case *SSel:
+		return mentionsTrace(x.X, sp)
+	case *SIndex:
+		return mentionsTrace(x.X, sp) || mentionsTrace(x.I, sp)
+	case *SCall:
+		if id, ok := x.Fun.(*SIdent); ok {
+			if traceVocab[id.Name] {
+				return true
+			}
+			if sf := sp.SpecFuns[id.Name]; sf != nil && sf.Macro && sf.Body != nil && mentionsTrace(sf.Body, sp) {
+				return true
+			}
+		}
+		for _, a := range x.Args {
+			if mentionsTrace(a, sp) {
+				return true
+			}
+		}
+		return mentionsTrace(x.Fun, sp)
+	case *SUn:
+		return mentionsTrace(x.X, sp)
+	case *SBin:
+		return mentionsTrace(x.X, sp) || mentionsTrace(x.Y, sp)
+	case *SCond:
+		return mentionsTrace(x.C, sp) || mentionsTrace(x.A, sp) || mentionsTrace(x.B, sp)
+	case *SQuant:
+		return mentionsTrace(x.Body, sp)
+	case *SDeref:
+		return mentionsTrace(x.X, sp)
+	case *SOld:
+		return mentionsTrace(x.X, sp)
+	}
+	return false
 }
